@@ -137,9 +137,43 @@ _EX = {"normal": _f(0.3), "flip": jnp.array(True), "categorical3": jnp.int32(1),
 _ARGS = {"normal": (_f(0.5), _f(1.5)), "flip": (_f(0.3),), "categorical3": (jnp.array([0.1, -0.2, 0.4], jnp.float32),), "uniform": (_f(0.0), _f(2.0))}
 
 
+# ---- optional recording of every leaf distribution the reference visits: (dist, parameter values, value, guard)
+LEAF_REC = None  # list while recording
+_GUARDS = []
+
+
+class record_leaves:
+    def __enter__(self):
+        global LEAF_REC
+        LEAF_REC = []
+        return LEAF_REC
+
+    def __exit__(self, *exc):
+        global LEAF_REC
+        LEAF_REC = None
+
+
+class _guard:
+    """the sub-reference evaluated inside is only 'live' when cond holds (switch branch, mask flag)"""
+
+    def __init__(self, cond):
+        self.cond = cond
+
+    def __enter__(self):
+        _GUARDS.append(self.cond)
+
+    def __exit__(self, *exc):
+        _GUARDS.pop()
+
+
 def Dist(dist):
     def ref(args, vals):
         t = lp(dist, vals[0], *args)
+        if LEAF_REC is not None:
+            g = True
+            for c in _GUARDS:
+                g = jnp.logical_and(g, c)
+            LEAF_REC.append((dist, tuple(args), vals[0], g))
         return RefOut(t, vals[0], [t], [True])
 
     def assume(*a):
@@ -341,7 +375,10 @@ def Switch(branches, idx=1):
 
     def ref(a, vals):
         k = _clampi(a[0], n)
-        outs = [b.ref(tuple(ba), [vals[j] for j in m]) for b, ba, m in zip(branches, a[1:], maps)]
+        outs = []
+        for i, (b, ba, m) in enumerate(zip(branches, a[1:], maps)):
+            with _guard(k == i):
+                outs.append(b.ref(tuple(ba), [vals[j] for j in m]))
         score = sum(jnp.where(k == i, o.score, 0.0) for i, o in enumerate(outs))
         ret = outs[0].retval
         for i in range(1, n):
@@ -365,7 +402,8 @@ def MaskP(P, flag=True):
     args = (jnp.array(flag),) + tuple(P.args)
 
     def ref(a, vals):
-        r = P.ref(tuple(a[1:]), vals)
+        with _guard(a[0]):
+            r = P.ref(tuple(a[1:]), vals)
         f = a[0]
         rv = jax.tree_util.tree_map(lambda t: jnp.where(f, t, jnp.zeros_like(t)), r.retval)
         return RefOut(jnp.where(f, r.score, 0.0), (rv, f), [jnp.where(f, t, 0.0) for t in r.terms],
@@ -417,8 +455,10 @@ def OrElse(P, Q, flag=True):
 
     def ref(a, vals):
         f = a[0]
-        rp = P.ref(tuple(a[1]), [vals[j] for j in maps[0]])
-        rq = Q.ref(tuple(a[2]), [vals[j] for j in maps[1]])
+        with _guard(f):
+            rp = P.ref(tuple(a[1]), [vals[j] for j in maps[0]])
+        with _guard(jnp.logical_not(f)):
+            rq = Q.ref(tuple(a[2]), [vals[j] for j in maps[1]])
         ret = jax.tree_util.tree_map(lambda x, y: jnp.where(f, x, y), rp.retval, rq.retval)
         terms, present = _merge_ref(len(sites), maps, [rp, rq], [f, jnp.logical_not(f)])
         return RefOut(jnp.where(f, rp.score, rq.score), ret, terms, present)
@@ -439,9 +479,13 @@ def Mix(P, Q):
         k = vals[0]
         lk = tfd.Categorical(logits=logits).log_prob(k)
         bv = vals[1:]
-        rp = P.ref(tuple(a[1]), [bv[j] for j in maps[0]])
-        rq = Q.ref(tuple(a[2]), [bv[j] for j in maps[1]])
         kk = _clampi(k, 2)
+        if LEAF_REC is not None:
+            LEAF_REC.append(("categorical2", (logits,), k, True))
+        with _guard(kk == 0):
+            rp = P.ref(tuple(a[1]), [bv[j] for j in maps[0]])
+        with _guard(kk == 1):
+            rq = Q.ref(tuple(a[2]), [bv[j] for j in maps[1]])
         ret = jax.tree_util.tree_map(lambda x, y: jnp.where(kk == 0, x, y), rp.retval, rq.retval)
         terms, present = _merge_ref(len(bsites), maps, [rp, rq], [kk == 0, kk == 1])
         return RefOut(lk + jnp.where(kk == 0, rp.score, rq.score), ret, [lk] + terms, [True] + present)
